@@ -7,7 +7,7 @@ def Op.targets : Op → List Nat
   | .new a .. => [a] | .mat a .. => [a] | .band a .. => [a] | .adopt a _ => [a] | .range a .. => [a]
   | .clone a .. => [a] | .conv a .. => [a] | .xconv a _ => [a] | .move a b => [a, b] | .clear a => [a]
   | .destroy a => [a] | .format .. => [] | .write .. => [] | .lay .. => [] | .mlay a .. => [a] | .ldrop _ => []
-  | .mk a .. => [a] | .copy a .. => [a]
+  | .mk a .. => [a] | .copy a .. => [a] | .lmove .. => [] | .lvec _ => []
 
 theorem slot_pool (s : State) (p : Pool) (c : Nat) : ({ s with pool := p } : State).slot c = s.slot c := rfl
 theorem slot_setLay (s : State) (l : Nat) (x : Option Layout) (c : Nat) : (s.setLay l x).slot c = s.slot c := rfl
